@@ -7,6 +7,7 @@ import (
 	"io"
 	"strings"
 
+	"github.com/Tnze/go-mc/chat"
 	mcnet "github.com/Tnze/go-mc/net"
 	pk "github.com/Tnze/go-mc/net/packet"
 
@@ -296,6 +297,28 @@ func wireReadOps() []*ReadOp {
 			n, err := pk.Tuple{&v, pk.Ary[pk.VarInt]{Ary: &s}, f}.ReadFrom(r)
 			return []any{v, s, []byte(f)}, n, err
 		}})
+
+	// ---- text components (NBT documents decoded into a typed target through their own Unmarshaler)
+	chatIn := []Input{
+		in("bare-string", hx("08 0005 68656c6c6f")),
+		in("bare-string-300", append(hx("08 012c"), []byte(text(300))...)),
+		in("compound-text", hx("0a 08 0004 74657874 0002 6869 01 0004 626f6c64 01 00")),
+		in("compound-translate-with-strings", hx("0a 08 0009 7472616e736c617465 0001 6b 09 0004 77697468 08 00000002 0001 61 0002 6263 00")),
+		in("list-of-compounds", hx("09 0a 00000002 08 0004 74657874 0001 61 00 08 0004 74657874 0001 62 00")),
+	}
+	add(&ReadOp{Name: "chat.Message.ReadFrom", Inputs: chatIn, Run: func(r io.Reader) (any, int64, error) {
+		var m chat.Message
+		n, err := m.ReadFrom(r)
+		return m, n, err
+	}})
+	add(&ReadOp{Name: "chat.Type.ReadFrom", Inputs: []Input{
+		in("no-target", hx("05 08 0003 626f62 00")),
+		in("with-target", hx("8001 08 0003 626f62 01 08 0005 616c696365")),
+	}, Run: func(r io.Reader) (any, int64, error) {
+		var t chat.Type
+		n, err := t.ReadFrom(r)
+		return t, n, err
+	}})
 
 	// ---- RCON
 	var rc []Input
